@@ -11,7 +11,8 @@ TABLE = {
             ('OpyVerif.Proofs.ClipProg', 'Opy', None), ('OpyVerif.Generated.ClipLoops', 'Opy.Gen', None),
             ('OpyVerif.Proofs.C06', 'Opy', r'clip(Pos|All|Hyper|Row)?_(inBox|mem|shape|length|inUnitBox)|boundsOk_unit'),
             ('OpyVerif.Proofs.C03', 'Opy', r'clip_precedes_hook|sweep_follows_hook'),
-            ('OpyVerif.Generated.Skeletons', 'Opy.Gen', r'skel_\w+_good|evalSites_ok|evalSites_nonempty')],
+            ('OpyVerif.Generated.Skeletons', 'Opy.Gen', r'skel_\w+_good|evalSites_ok|evalSites_nonempty'),
+            ('OpyVerif.Proofs.InitCode', 'Opy', None), ('OpyVerif.Generated.Init', 'Opy.Gen', None)],
     'C02': [('OpyVerif.Proofs.C02', 'Opy', None),
             ('OpyVerif.Proofs.SweepCode', 'Opy', None), ('OpyVerif.Proofs.SweepProg', 'Opy', None),
             ('OpyVerif.Generated.Sweeps', 'Opy.Gen', None),
@@ -37,7 +38,8 @@ TABLE = {
             ('OpyVerif.Generated.ClipLoops', 'Opy.Gen', None),
             ('OpyVerif.Generated.Guards', 'Opy.Gen', r'guard_mismatches|guardTable_size'),
             ('OpyVerif.Proofs.C14', 'Opy.G', r'agree_sound|accepts_iff_all_domains'),
-            ('OpyVerif.Proofs.C18real', 'Opy', r'uniformAffine_mem')],
+            ('OpyVerif.Proofs.C18real', 'Opy', r'uniformAffine_mem'),
+            ('OpyVerif.Proofs.InitProg', 'Opy', None), ('OpyVerif.Proofs.InitCode', 'Opy', None), ('OpyVerif.Generated.Init', 'Opy.Gen', None)],
     'C07': [('OpyVerif.Proofs.C07', 'Opy', None),
             ('OpyVerif.Proofs.Accept', 'Opy', r'accept_private|accept_pair'),
             ('OpyVerif.Generated.Accepts', 'Opy.Gen', r'acceptSites_ok')],
@@ -67,7 +69,8 @@ TABLE = {
             ('OpyVerif.Proofs.ClipCode', 'Opy', r'code_hyperClip'), ('OpyVerif.Proofs.ClipProg', 'Opy', r'hyperClip_run|clipRows_lit'),
             ('OpyVerif.Generated.ClipLoops', 'Opy.Gen', r'hyperClip_eq|boundWrites_eq|no_other_clip_override'), ('OpyVerif.Proofs.Formulas', 'Opy', r'^d_(span|norm)$'),
             ('OpyVerif.Generated.FormulasC13', 'Opy.Gen', None),
-            ('OpyVerif.Proofs.C06', 'Opy', r'clipHyper')],
+            ('OpyVerif.Proofs.C06', 'Opy', r'clipHyper'),
+            ('OpyVerif.Proofs.InitCode', 'Opy', r'code_hyperInit'), ('OpyVerif.Generated.Init', 'Opy.Gen', r'hyperInit_eq')],
     'C14': [('OpyVerif.Proofs.C14', 'Opy.G', None),
             ('OpyVerif.Generated.Guards', 'Opy.Gen', None)],
     'C15': [('OpyVerif.Proofs.C15', 'Opy', None),
